@@ -962,6 +962,21 @@ def _outputs(inp, X, Y, Z, poly, tscale):
         o["polygon_circle_centre"] = np.asarray(c, float)
         o["polygon_circle_radius"] = np.asarray(r, float)
         o["polygon_circle_thetas@"] = np.asarray(th, float)
+    # horospheres (wave 6): centred at the ideal point in the direction of X, through Y — built with the two-argument
+    # constructor and from one stacked array (..., 2, n) of homogeneous coordinates; centre and radius in both models do not
+    # depend on the scale (or sign) of either representative
+    sp = np.linalg.norm(np.asarray(X, float)[..., 1:], axis=-1, keepdims=True)
+    if not inp.get("y_ideal") and np.all(sp > 1e-3 * np.abs(np.asarray(X, float)[..., :1])):
+        cvec = np.concatenate([np.sign(np.asarray(X, float)[..., :1]) * sp, np.asarray(X, float)[..., 1:]], axis=-1)
+        h2 = H.Horosphere(H.IdealPoint(np.array(cvec, copy=True)), H.Point(np.array(Y, copy=True)))
+        h1 = H.Horosphere(np.stack([np.array(cvec, float), np.array(Y, float)], axis=-2))
+        for nm, hh in (("two_args", h2), ("stacked_array", h1)):
+            for m in ("poincare", "halfspace"):
+                with np.errstate(all="ignore"):
+                    c, r = hh.sphere_parameters(model=m)
+                if np.all(np.isfinite(np.asarray(r, float))) and np.all(np.abs(np.asarray(r, float)) < 1e3):
+                    o["horosphere_%s_%s_centre" % (nm, m)] = np.asarray(c, float)
+                    o["horosphere_%s_%s_radius" % (nm, m)] = np.asarray(r, float)
     Tm = _iso_for(inp)
     Ts = H.Isometry(Tm.proj_data * tscale)
     o["image_point"] = np.asarray(Ts.apply(PX).coords("klein"), float)
